@@ -9,7 +9,7 @@
 From Coq Require Import List NArith ZArith QArith Qcanon Bool Lia.
 From ACB Require Import Base.Outcome Base.QcExtra Base.Fit Base.Arith Model.Tx Model.Ledger Model.Sfl
      Model.DeltaList Spec.AvgCost Proofs.Tactics Proofs.C01Refine Proofs.C04Inv Proofs.C04Sum Proofs.C02Scan
-     Proofs.C05Sites Proofs.C04Reject Proofs.C03Conserve Proofs.EffCent.
+     Proofs.C05Sites Proofs.C04Reject Proofs.C03Conserve Proofs.EffCent Proofs.AllAfter.
 Import ListNotations.
 Local Open Scope Qc_scope.
 
@@ -401,7 +401,8 @@ Section Rows.
       apply Qcltb_true in V0. apply Qcltb_true in V.
       unfold delta_nonsell. rewrite Ea.
       rewrite (gez_add_ok _ _ Hsh (Qclt_le_weak _ _ Hv)). cbn [bind].
-      rewrite (gez_add_ok _ _ Hall (Qclt_le_weak _ _ Hv)). cbn [bind].
+      rewrite (all_after_exact_as _ _ _ (s_all pre + n)) by ring. cbn [bind].
+      rewrite gez_unwrap_nn by (clear - Hall Hv; qc_lra). cbn [bind].
       destruct (s_acb pre) as [old|] eqn:Eo; [|cbn [bind good_d]; constructor].
       rewrite (local_value_ok _ _ _ (Qclt_le_weak _ _ Hv) V2 (Qclt_le_weak _ _ V0)). cbn [bind].
       rewrite (gez_mul_ok _ _ V1 (Qclt_le_weak _ _ V)). cbn [bind].
@@ -417,6 +418,7 @@ Section Rows.
       apply Qcltb_true in V1. apply Qcltb_true in V0.
       unfold sell_core. cbn [a_sub exact bind].
       destruct (Qcltb_spec (s_sh pre - n) 0) as [|Hn1]; [exact I|].
+      rewrite (all_after_exact_as _ _ _ (s_all pre - n)) by ring. cbn [bind].
       destruct (Qcltb_spec (s_all pre - n) 0) as [|Hn2]; [exact I|].
       apply Qcnot_lt_le in Hn1. apply Qcnot_lt_le in Hn2.
       unfold per_share_acb. destruct (s_acb pre) as [acb|] eqn:Eo; cbn [bind sc_gain]; [|constructor].
@@ -460,7 +462,7 @@ Section Rows.
       destruct (Qcleb_spec 0 (s_sh pre * post / pre_)) as [_|Hc].
       2: { exfalso. apply Hc. unfold Qcdiv. apply Qcmul_nonneg; [apply Qcmul_nonneg; [exact Hsh | apply Qclt_le_weak; exact Hv]|].
            apply Qclt_le_weak. apply Qcinv_pos. exact V. }
-      cbn [bind a_sub a_add exact]. destruct (Qcltb _ 0); cbn [good_d]; [exact I|].
+      cbn [bind]. rewrite all_after_exact. cbn [bind]. destruct (Qcltb _ 0); cbn [good_d]; [exact I|].
       destruct (_ && _); cbn [bind good_d]; [exact I | constructor].
   Qed.
 End Rows.
@@ -543,9 +545,10 @@ Section RunsNP.
     - exfalso. unfold init_state in Ei. destruct init as [i|]; [|discriminate].
       destruct (Hi i eq_refl) as (Hs & Ha & Hb).
       destruct (Qceqb_spec (s_sh i) (s_all i)) as [_|Hn]; [|contradiction]. cbn [negb] in Ei.
-      unfold set_latest in Ei. cbn [a_add a_sub exact bind latest_for ps_map alookup ps_all] in Ei.
+      unfold set_latest in Ei. rewrite all_after_exact in Ei.
+      cbn [a_add a_sub exact bind latest_for ps_map alookup ps_all] in Ei.
       destruct (s_acb i) as [c|] eqn:Ec; [|contradiction Ha; reflexivity].
       cbn [is_none default_aff af_reg Bool.eqb negb] in Ei.
-      destruct (Qceqb_spec (s_all i) (s_sh i + 0 - 0)) as [_|Hn]; [discriminate Ei|]. apply Hn. rewrite Hb. ring.
+      destruct (Qceqb_spec (s_all i) (0 + (s_sh i - 0))) as [_|Hn]; [discriminate Ei|]. apply Hn. rewrite Hb. ring.
   Qed.
 End RunsNP.
